@@ -73,6 +73,8 @@ def signed_of(x, env):
         return False
     if x[0] == ">>":
         return signed_of(x[1], env)
+    if x[0] == "&":
+        return all(signed_of(s, env) for s in x[1:])       # negative only if both operands are
     return any(signed_of(s, env) for s in x[1:])
 
 
